@@ -20,12 +20,14 @@ open Stage
 structure SE where
   base : S
   failed : List Nat            -- items whose processing raised, in order
+  loadFailed : Bool := false   -- an input could not be loaded: the parent itself raised while producing
   outcome : Option Bool        -- `none`: the parent has not finished; `some true`: raised; `some false`: returned normally
 
 inductive LE where
   | base (l : L)
   | cbFail (k i : Nat)         -- worker `k`'s callback raises on item `i`
   | check                      -- the parent, after joining the workers, looks at the error event
+  | loadFail                   -- the parent's own iteration over the inputs raises (an image cannot be loaded)
 
 def stepE (s : SE) : LE → Option SE
   | .base l => if s.outcome = none then (step s.base l).map (fun b => { s with base := b }) else none
@@ -33,6 +35,9 @@ def stepE (s : SE) : LE → Option SE
     if s.outcome = none then (step s.base (.cb k i)).map (fun b => { s with base := b, failed := s.failed ++ [i] }) else none
   | .check =>
     if s.base.pc = .returned ∧ s.outcome = none then some { s with outcome := some (decide (s.failed ≠ [])) } else none
+  | .loadFail =>
+    -- the exception propagates out of the producing loop at once (the workers are daemons)
+    if s.base.pc = .putting ∧ s.outcome = none then some { s with loadFailed := true, outcome := some true } else none
 
 def runE (s : SE) : List LE → Option SE
   | [] => some s
@@ -44,8 +49,9 @@ def proj : LE → List L
   | .base l => [l]
   | .cbFail k i => [.cb k i]
   | .check => []
+  | .loadFail => []
 
-def initE (n cap : Nat) (items : List Nat) : SE := { base := init n cap true items, failed := [], outcome := none }
+def initE (n cap : Nat) (items : List Nat) : SE := { base := init n cap true items, failed := [], loadFailed := false, outcome := none }
 
 theorem run_append' : ∀ (t1 t2 : List L) (a : S), run a (t1 ++ t2) = (run a t1).bind (fun b => run b t2) := by
   intro t1
@@ -101,6 +107,13 @@ theorem projects : ∀ (tr : List LE) (s s' : SE), runE s tr = some s' →
           simp only [proj, run]
           exact hrest
         · cases hs1
+      | loadFail =>
+        simp only [stepE] at hs1
+        split at hs1
+        · cases hs1
+          simp only [proj, run]
+          exact hrest
+        · cases hs1
     · cases h
 
 /-- hence the stage winds down as in C03: when the parent has decided its outcome, all workers have
@@ -114,10 +127,11 @@ theorem winds_down (n cap : Nat) (items : List Nat) (hn : 0 < n) (tr : List LE) 
     (C03.stage_no_loss n cap items hn s.base hb hret).2.1⟩
 
 theorem failed_mono : ∀ (tr : List LE) (s s' : SE), runE s tr = some s' →
-    (s.failed ≠ [] → s'.failed ≠ []) ∧ (s.outcome ≠ none → s'.outcome = s.outcome ∧ s'.failed = s.failed) := by
+    (s.failed ≠ [] → s'.failed ≠ []) ∧
+    (s.outcome ≠ none → s'.outcome = s.outcome ∧ s'.failed = s.failed ∧ s'.loadFailed = s.loadFailed) := by
   intro tr
   induction tr with
-  | nil => intro s s' h; simp only [runE, Option.some.injEq] at h; subst h; exact ⟨id, fun _ => ⟨rfl, rfl⟩⟩
+  | nil => intro s s' h; simp only [runE, Option.some.injEq] at h; subst h; exact ⟨id, fun _ => ⟨rfl, rfl, rfl⟩⟩
   | cons l ls ih =>
     intro s s' h
     simp only [runE] at h
@@ -154,18 +168,25 @@ theorem failed_mono : ∀ (tr : List LE) (s s' : SE), runE s tr = some s' →
           cases hs1
           exact ⟨hrest.1, fun hne => absurd hg.2 hne⟩
         · cases hs1
+      | loadFail =>
+        simp only [stepE] at hs1
+        split at hs1
+        · rename_i hg
+          cases hs1
+          exact ⟨hrest.1, fun hne => absurd hg.2 hne⟩
+        · cases hs1
     · cases h
 
 /-- **error_visible**: in every execution (any workers, items, interleaving, any set of failing
-callbacks), once the parent has finished, it has *raised* exactly when some callback failed; it never
-returns normally after a failure. -/
-theorem error_visible : ∀ (tr : List LE) (s s' : SE), s.outcome = none → runE s tr = some s' →
-    ∀ r, s'.outcome = some r → (r = true ↔ s'.failed ≠ []) := by
+callbacks, an input that cannot be loaded at any point of the production), once the parent has finished, it has
+*raised* exactly when some callback failed or an input could not be loaded; it never returns normally after a failure. -/
+theorem error_visible : ∀ (tr : List LE) (s s' : SE), s.outcome = none → s.loadFailed = false → runE s tr = some s' →
+    ∀ r, s'.outcome = some r → (r = true ↔ (s'.failed ≠ [] ∨ s'.loadFailed = true)) := by
   intro tr
   induction tr with
-  | nil => intro s s' ho h r hr; simp only [runE, Option.some.injEq] at h; subst h; rw [ho] at hr; cases hr
+  | nil => intro s s' ho _ h r hr; simp only [runE, Option.some.injEq] at h; subst h; rw [ho] at hr; cases hr
   | cons l ls ih =>
-    intro s s' ho h r hr
+    intro s s' ho hlf h r hr
     simp only [runE] at h
     split at h
     · rename_i s1 hs1
@@ -177,7 +198,7 @@ theorem error_visible : ∀ (tr : List LE) (s s' : SE), s.outcome = none → run
         | some b1 =>
           simp only [hb, Option.map_some, Option.some.injEq] at hs1
           subst hs1
-          exact ih { base := b1, failed := s.failed, outcome := none } s' rfl h r hr
+          exact ih { base := b1, failed := s.failed, loadFailed := s.loadFailed, outcome := none } s' rfl hlf h r hr
       | cbFail k i =>
         simp only [stepE, ho, if_true] at hs1
         cases hb : step s.base (.cb k i) with
@@ -185,18 +206,30 @@ theorem error_visible : ∀ (tr : List LE) (s s' : SE), s.outcome = none → run
         | some b1 =>
           simp only [hb, Option.map_some, Option.some.injEq] at hs1
           subst hs1
-          exact ih { base := b1, failed := s.failed ++ [i], outcome := none } s' rfl h r hr
+          exact ih { base := b1, failed := s.failed ++ [i], loadFailed := s.loadFailed, outcome := none } s' rfl hlf h r hr
       | check =>
         simp only [stepE] at hs1
         split at hs1
         · cases hs1
           -- the outcome is fixed from here on
           have := (failed_mono ls _ s' h).2 (by simp)
-          obtain ⟨e1, e2⟩ := this
-          simp only at e1 e2
+          obtain ⟨e1, e2, e3⟩ := this
+          simp only at e1 e2 e3
           rw [e1] at hr
           simp only [Option.some.injEq] at hr
-          rw [e2, ← hr]
+          rw [e2, e3, hlf, ← hr]
+          simp
+        · cases hs1
+      | loadFail =>
+        simp only [stepE] at hs1
+        split at hs1
+        · cases hs1
+          have := (failed_mono ls _ s' h).2 (by simp)
+          obtain ⟨e1, e2, e3⟩ := this
+          simp only at e1 e2 e3
+          rw [e1] at hr
+          simp only [Option.some.injEq] at hr
+          rw [e3, ← hr]
           simp
         · cases hs1
     · cases h
@@ -205,7 +238,9 @@ theorem error_visible : ∀ (tr : List LE) (s s' : SE), s.outcome = none → run
 theorem code_reports_errors : Gen.Stage.visit_reports_errors = true ∧ Gen.Stage.transform_reports_errors = true ∧
     Gen.Stage.multi_tan_reports_errors = true ∧ Gen.Stage.multi_wcs_reports_errors = true ∧
     Gen.WalkWorker.reports_errors = true ∧ Gen.WalkWorker.loop_shape_ok = true ∧
-    Gen.WalkWorker.raise_helper_raises_when_set = true := by decide
+    Gen.WalkWorker.raise_helper_raises_when_set = true ∧
+    Gen.Stage.visit_producer_unguarded = true ∧ Gen.Stage.transform_producer_unguarded = true ∧
+    Gen.Stage.multi_tan_producer_unguarded = true ∧ Gen.Stage.multi_wcs_producer_unguarded = true := by decide
 
 /-! non-vacuity: one worker, two items, the first one fails -/
 example : ∃ s, runE (initE 1 2 [4, 5])
@@ -213,5 +248,9 @@ example : ∃ s, runE (initE 1 2 [4, 5])
      .base (.rlock 0), .base (.recv 0 4), .cbFail 0 4, .base (.flagQ 0 false), .base (.rlock 0), .base (.recv 0 5),
      .base (.cb 0 5), .base .close, .base .joinThread, .base .setFlag, .base (.flagQ 0 true), .base (.rlock 0),
      .base (.empty 0), .base (.join 0), .check] = some s ∧ s.outcome = some true ∧ s.failed = [4] := ⟨_, rfl, rfl, rfl⟩
+
+/-! non-vacuity: the second input cannot be loaded -/
+example : ∃ s, runE (initE 2 2 [4, 5]) [.base (.start 0), .base (.start 1), .base (.put 4), .loadFail] = some s ∧
+    s.outcome = some true ∧ s.failed = [] ∧ s.loadFailed = true := ⟨_, rfl, rfl, rfl, rfl⟩
 
 end C19
